@@ -1,6 +1,7 @@
 package checks
 
 import (
+	"bytes"
 	"fmt"
 	"os"
 	"os/exec"
@@ -469,6 +470,27 @@ func init() {
 					for i := 0; i < 30; i++ {
 						run(fmt.Sprintf("fresh process %d", i), envs[0], dir)
 					}
+					// what the output path held before the run is not an input either
+					for pi, pre := range [][]byte{{}, []byte("x"), []byte("package old\n\nfunc Old() {}\n"), bytes.Repeat([]byte("// a former generation, much longer than the new one\n"), 4000)} {
+						os.WriteFile(filepath.Join(dir, "out.go"), pre, 0o644)
+						cmd := exec.Command(filepath.Join(w.Shared, "gontainer"), args...)
+						cmd.Env = envs[0]
+						cmd.Dir = dir
+						out, err := cmd.CombinedOutput()
+						code := 0
+						if err != nil {
+							code = 1
+						}
+						b, _ := os.ReadFile(filepath.Join(dir, "out.go"))
+						if code != 0 {
+							b = nil // the path keeps what it held (C10); only status and report are compared here
+						}
+						k := fmt.Sprintf("%d|%s|%s", code, Sha(string(out)), Sha(string(b)))
+						seen[k] = fmt.Sprintf("output path pre-filled with %d bytes (pre-state %d)\n", len(pre), pi) + string(out)
+						c.Count("process_runs")
+						c.Count("evaluations_extra")
+					}
+					os.Remove(filepath.Join(dir, "out.go"))
 					// the same tree in two different directories, relative arguments, each run from its own directory
 					if cfg.args != nil || true {
 						relArgs := []string{"build"}
